@@ -151,6 +151,11 @@ class PandasMissingValueFeatureGroup(MissingValueFeatureGroup):
         Returns:
             The result of the grouped imputation as a Pandas Series
         """
+        # pandas reads a tuple as ONE (multi-level) key, the other frameworks iterate it; a configuration-based
+        # feature can only carry a tuple (a list is unhashable there)
+        if isinstance(group_by_features, tuple):
+            group_by_features = list(group_by_features)
+
         # Create a copy of the source feature to avoid modifying the original
         result = data[in_features].copy()
 
